@@ -313,7 +313,7 @@ package ast
 //@ func Document.GetVariableBooleanValue
 //@   requires d != nil
 //@   at call Document.VariableDefinitionNameString: assert {only.variable.definitions.of.operations.still.in.the.document.are.consulted} isLiveVariableDefinition(d, arg1)
-//@   modifies *
+//@   pure
 //@   safety no-bounds
 
 // C03, removing a directive (or any ref) from a list while a walker is ranging over that list: the array the walker
@@ -326,4 +326,4 @@ package ast
 //@   ensures {one.ref.less} len(*refs) == old(len(*refs)) - 1
 //@   ensures {the.refs.before.stay.the.refs.after.move.up} (forall k in 0..index :: (*refs)[k] == old((*refs)[k])) && (forall k in index..len(*refs) :: (*refs)[k] == old((*refs)[k + 1]))
 //@   ensures {the.array.a.walker.may.be.ranging.over.is.not.written} forall k in 0..old(len(*refs)) :: old(*refs)[k] == old((*refs)[k])
-//@   modifies *
+//@   modifies *refs
